@@ -100,7 +100,25 @@ func (u *Universe) oblText(o *Obl, withModel bool) string {
 		b.WriteString("(set-option :produce-models true)\n")
 	}
 	b.WriteString(prelude(o.BV))
-	b.WriteString(u.specText(o.Spec))
+	spec := u.specText(o.Spec)
+	lits := append([]string(nil), o.Lits...)
+	for _, t := range sexprTokens(spec) {
+		if l, ok := litFromName(t); ok {
+			lits = append(lits, l)
+		}
+	}
+	for _, d := range o.Decls {
+		if strings.Contains(d, "|\"") {
+			for _, t := range sexprTokens(d) {
+				if l, ok := litFromName(t); ok {
+					lits = append(lits, l)
+				}
+			}
+		}
+	}
+	b.WriteString("; ---- string literals\n")
+	b.WriteString(litDecls(lits))
+	b.WriteString(spec)
 	b.WriteString("; ---- declarations\n")
 	for _, d := range o.Decls {
 		b.WriteString(d)
@@ -108,12 +126,12 @@ func (u *Universe) oblText(o *Obl, withModel bool) string {
 	}
 	b.WriteString("; ---- path condition of " + o.Name + " @ " + o.Pos + "\n")
 	for _, p := range o.PC {
-		b.WriteString("(assert " + p + ")\n")
+		b.WriteString("(assert " + normalizeFormula(p) + ")\n")
 	}
 	if o.Expect == "sat" {
 		b.WriteString("; ---- cover: the above must be satisfiable\n")
 	} else {
-		b.WriteString("; ---- negated goal\n(assert (not " + o.Goal + "))\n")
+		b.WriteString("; ---- negated goal\n(assert (not " + normalizeFormula(o.Goal) + "))\n")
 	}
 	b.WriteString("(check-sat)\n")
 	if withModel {
